@@ -3,6 +3,8 @@ C14  Values that violate a chart's schema are never rendered or deployed.
 Property theorems only.  The validator of a single schema is a parameter `valid`.
 -/
 import Helm.Model.Schema
+import Helm.Gen.Tables
+import Helm.Spec.Skeletons
 
 namespace Helm.Props.C14
 open Helm.Values Helm.Schema
@@ -86,5 +88,13 @@ example :
     let vals : Tbl := .cons "sub" (.tbl (.cons "other" (.num "1") .nil)) .nil
     failing (fun s t => validate s (.tbl t)) tree vals = some ["sub"] := by
   rfl
+
+/-- The tie to the command line: the install `helm upgrade --install` falls back to gets its skip flag from
+`--skip-schema-validation` and from nothing else (regenerated from pkg/cmd/upgrade.go at every run). -/
+theorem upgrade_install_forwards_skip_flag :
+    Helm.Spec.forwardsAll Helm.Gen.upgradeInstallForwards
+      [("SkipSchemaValidation", "client.SkipSchemaValidation"),
+       ("DisableOpenAPIValidation", "client.DisableOpenAPIValidation")] = true := by
+  decide
 
 end Helm.Props.C14
